@@ -21,6 +21,7 @@ macro_rules! dispatch {
             "C09" => $f(&props::c09::C09, $($arg),*),
             "C10" => $f(&props::c10::C10, $($arg),*),
             "C11" => $f(&props::c11::C11, $($arg),*),
+            "C12" => $f(&props::c12::C12, $($arg),*),
             "C13" => $f(&props::c13::C13, $($arg),*),
             _ => { eprintln!("unknown property {}", $id); 2 }
         }
